@@ -35,6 +35,9 @@ Next == \/ sc.stage = 0 /\ \E sh \in Shapes, p1 \in Places : sc' = [stage |-> 1,
                sc' = [stage |-> 2, fam |-> "shape", sh |-> sc.sh, f |-> ShapeOf(sc.sh, sc.p1, p2, p3, q, s)]
         \/ sc.stage = 0 /\ \E ft \in Faults, q \in BOOLEAN : sc' = [stage |-> 2, fam |-> "fault", fault |-> ft, quoted |-> q]
         \/ sc.stage = 0 /\ \E p1 \in Places, q \in BOOLEAN, s \in Seps : sc' = [stage |-> 2, fam |-> "a2ml", place |-> p1, quoted |-> q, sep |-> s]
+        \* an include inside an IF_DATA block (described by the A2ML of the file, or by nothing)
+        \/ sc.stage = 0 /\ \E p1 \in Places, q \in BOOLEAN, d \in BOOLEAN :
+               sc' = [stage |-> 2, fam |-> "ifdata", place |-> p1, quoted |-> q, sep |-> "/", described |-> d]
 Spec == Init /\ [][Next]_sc
 
 IdealOK == (sc.stage = 2 /\ sc.fam = "shape") => ReloadEqualIdeal(sc.f)
